@@ -40,10 +40,14 @@ Commented(raw) == IsComment(CStr(StripTerm(raw)))
 
 HexDigit(v) == IF v < 10 THEN 48 + v ELSE 87 + v
 Escape(b) == <<48, 120, HexDigit(b \div 16), HexDigit(b % 16)>>
-EchoOf(a) == Concat([i \in 1..Len(a) |-> IF IsCtl(a[i]) THEN Escape(a[i]) ELSE <<a[i]>>])
+EchoOf(a) == IF \A i \in 1..Len(a) : ~IsCtl(a[i]) THEN a ELSE Concat([i \in 1..Len(a) |-> IF IsCtl(a[i]) THEN Escape(a[i]) ELSE <<a[i]>>])
 \* the property pins the echo only for well-formed lines without control characters (echoed unchanged); how control
 \* characters or undecodable bytes are shown is the tool's business
 \* (C1 controls U+0080..U+009F, bytes C2 80..9F, count as control characters too: not pinned)
 EchoPinned(a) == /\ WellFormed(a) /\ \A i \in 1..Len(a) : ~IsCtl(a[i])
                  /\ ~\E i \in 1..(Len(a) - 1) : a[i] = 194 /\ a[i+1] \in 128..159
+
+(* eav FILE1 FILE2 ...: main walks argv from the last file name to the first, reading every file with the same object  *)
+(* and the same static scratch buffers; the output is the concatenation of the files' outputs in that order.           *)
+ProcessingOrder(n) == [i \in 1..n |-> n + 1 - i]
 =============================================================================
